@@ -81,7 +81,7 @@ func isCompare(op compiler.Opcode) bool {
 }
 
 func isArith(op compiler.Opcode) bool {
-	return op == compiler.Opcode_Add || op == compiler.Opcode_Sub || op == compiler.Opcode_Mul || op == compiler.Opcode_Div
+	return op == compiler.Opcode_Add || op == compiler.Opcode_Sub || op == compiler.Opcode_Mul || op == compiler.Opcode_Div || op == compiler.Opcode_Pow
 }
 
 func isIntOnly(op compiler.Opcode) bool {
@@ -138,7 +138,7 @@ func admissible(op compiler.Opcode, l value.Value, r value.Value) bool {
 		return k == value.IntValueKind || k == value.FloatValueKind || k == value.StringValueKind
 	case isArith(op) || isCompare(op):
 		return k == value.IntValueKind || k == value.FloatValueKind
-	case isIntOnly(op) || op == compiler.Opcode_Pow:
+	case isIntOnly(op):
 		return k == value.IntValueKind
 	case isBitwise(op):
 		return k == value.IntValueKind || k == value.BoolValueKind
@@ -235,8 +235,6 @@ func instrPre(c Core, i compiler.Instruction) bool {
 		return c.okTop(1) && c.peek(0).Kind() == value.AnyObjectValueKind
 	case compiler.Opcode_Into_Range:
 		return c.okTop(2) && c.peek(0).Kind() == value.IntValueKind && c.peek(1).Kind() == value.IntValueKind
-	case compiler.Opcode_Pow:
-		return c.okTop(2) && admissible(op, c.peek(1), c.peek(0))
 	case compiler.Opcode_Clone, compiler.Opcode_Throw:
 		return c.okTop(1)
 	case compiler.Opcode_Cloning_Push:
